@@ -341,13 +341,10 @@ CHOICE_decode_ber(const asn_codec_ctx_t *opt_codec_ctx,
 					ctx->left++;
 					continue;
 				}
-			} else {
-				ASN_DEBUG("Unexpected continuation in %s",
-					td->name);
-				RETURN(RC_FAIL);
 			}
 
-			/* UNREACHABLE */
+			ASN_DEBUG("Unexpected continuation in %s", td->name);
+			RETURN(RC_FAIL);
 		}
 
 		NEXT_PHASE(ctx);
